@@ -7,12 +7,17 @@
    (`batch`) does not raise; for EVERY topological-sort function (SQLAlchemy's is never reached in this class) and every
    CAST / DEFAULT behaviour of the database.  add_column (plain and insert_before/after) is inside the model and the
    correspondence but outside these theorems (its position is decided by SQLAlchemy's topological sort). *)
-From AV Require Import Model.BatchFail Model.Batch Spec.C11 Spec.C10 Proofs.BatchFailProof Proofs.BatchProof Proofs.BatchMainProof.
+From AV Require Import Model.BatchFail Model.Batch Spec.C11 Spec.C10 Proofs.BatchFailProof Proofs.BatchProof Proofs.BatchMainProof Proofs.BatchSortProof Proofs.BatchAddProof Proofs.BatchAddMainProof Proofs.BatchAddPlaceProof.
 
 (* the decider applied to the implementation's output is sound for the property *)
 Theorem C10_decider_sound : forall i o, check_C10 i o = true -> C10_holds i o.
 Proof. exact decider_sound10. Qed.
 Print Assumptions C10_decider_sound.
+
+(* ... and complete: the decider accepts an observation iff the property holds of it *)
+Theorem C10_decider_complete : forall i o, C10_holds i o -> check_C10 i o = true.
+Proof. exact decider_complete10. Qed.
+Print Assumptions C10_decider_complete.
 
 (* refinement: the table Alembic builds is exactly the edited description — same columns in the same order with the same
    attributes under their current names, same PK, same named constraints and indexes *)
@@ -58,21 +63,42 @@ Qed.
 Print Assumptions C10_untouched.
 
 (* MAIN THEOREM — the statement the harness evaluates: on inclass_C10 the model's output satisfies the property at full
-   strength (C10_holds: no temporary table, row count, every surviving column present, every cell = the expected cell,
-   untouched columns / PK / constraints / indexes identical and in order, every requested constraint present, inserted
-   columns on the requested side, and the table = the edited description).
-   inclass_C10: recreate='always'; a reflected table (wf_tbl2: column keys = names, all different; constraint and PK columns
-   exist; constraint names distinct; primary keys have columns); operations of the refinement class (no add_column) whose
-   added constraints are not primary keys; each column's type altered at most once; accepted by the specification `edit`. *)
+   strength (C10_holds: no temporary table, row count, every surviving column present, every cell = the expected cell —
+   added columns hold what the database fills in —, untouched columns / PK / constraints / indexes identical and in order,
+   every requested constraint present, inserted columns on the requested side, partial_reordering / table_args honoured,
+   and the table = the edited description up to the order of added columns inside one gap).
+   inclass_C10 (every conjunct is a boolean the harness evaluates):
+     recreate='always'; no partial_reordering / table_args / unnamed CHECK constraints;
+     wf_tbl2: a reflected table (column keys = names, all different; constraint and PK columns exist; constraint names
+       distinct; primary keys have columns);
+     in_class_a: every operation of the model — add_column appended, with insert_before= or with insert_after= (not both
+       at once: `edit` has no single reading), drop / alter (rename, type, nullable, default) column, add / drop named
+       constraint (added ones not primary keys), create / drop index — in any order and number;
+     types_once: each column's type altered at most once;
+     fresh_adds: an added column's key is new (not a column of the table, not added twice);
+     placement_ok: no drop_column of a column that add_col_ordering mentions — its complement is the registered deviation
+       C10-added-column-misplaced-when-neighbour-dropped-later; the column named by insert_before / insert_after is one of
+       the table's own (still present) columns, not one added by the same batch;
+     selfref_ok: no rename of a column that a self-referential foreign key (of the table or added by the batch) refers
+       to — its complement is the registered deviation C10-selfref-fk-target-not-renamed;
+     specok: accepted by the specification `edit` — its complement contains the two other registered deviations (a
+       constraint naming a column the batch does not know; re-adding an existing column).
+   Proof (Proofs/BatchAddPlaceProof.v): `edit` and the append specification differ only in where added columns sit (EA);
+   along the run every added column owns a gap of the surviving original columns, the recorded pairs name both sides of
+   the gap and the specification puts it into that gap (PG); a linear extension of the pairs that keeps the original
+   order (SQLAlchemy's sort, C10_tsort_linear_extension) puts it into the same gap (gap_sorted).
+   Outside the class but modelled, compared exactly and checked by the decider on every run: add_column naming a column
+   added by the same batch or both insert_before and insert_after, partial_reordering, table_args, unnamed constraints, naming conventions, copy_from,
+   recreate='auto' / 'never'. *)
 Theorem C10_main : forall i, inclass_C10 i = true -> C10_holds i (model10 i).
-Proof. exact main10. Qed.
+Proof. exact mainG. Qed.
 Print Assumptions C10_main.
 
 (* C10_rows, per cell, for EVERY cast/default behaviour of the database: in every row, the cell of a surviving column (under
    its new name, at its place in the new table) is the old cell of that column, converted with CAST to the new type exactly
    when the type class changed; a column that no transfer feeds (an added column) holds what the database fills in *)
 Theorem C10_rows_cell : forall cast dflt i T' nd cm r k' c',
-  inclass_C10 i = true -> edit_all (j_ops i) (j_tbl i) = BOk T' -> batch sa_tsort (j_tbl i) (j_ops i) = BOk (nd, cm) ->
+  inclass_C10_noadd i = true -> edit_all (j_ops i) (j_tbl i) = BOk T' -> batch sa_tsort (j_tbl i) (j_ops i) = BOk (nd, cm) ->
   In (k', c') (tb_cols T') ->
   In c' (n_cols nd) /\
   exists c0, aget k' (tb_cols (j_tbl i)) = Some c0 /\
@@ -85,6 +111,28 @@ Theorem C10_rows_default : forall cast dflt T cm r c,
   (forall e, In e cm -> fst (fst e) <> c_name c) -> copy_val cast dflt T cm r c = dflt c.
 Proof. exact cell_default. Qed.
 Print Assumptions C10_rows_default.
+
+(* ---- add_column inside the refinement (any insert_before / insert_after), and SQLAlchemy's topological sort ---- *)
+(* the transcription of sqlalchemy.util.topological.sort: whatever it returns is a permutation of the items in which the
+   first component of every pair comes before the second (a linear extension of the recorded pairs) *)
+Theorem C10_tsort_linear_extension : forall pairs items out, NoDup items -> sa_tsort pairs items = Some out ->
+  (forall x, In x out <-> In x items) /\ NoDup out /\
+  (forall a b, In (a, b) pairs -> In a items -> In b items -> a <> b -> precedes a b out).
+Proof. exact sa_tsort_spec. Qed.
+Print Assumptions C10_tsort_linear_extension.
+
+(* with add_column in the sequence (in_class_a: everything except an add naming BOTH neighbours and added primary keys):
+   the bookkeeping refines the specification in which an added column is appended (edit_app) — same column definitions under
+   their keys (FinA: the new table's columns are those of the edited description taken in the order `sorted`), same PK, named
+   constraints and indexes — and `sorted` is a permutation of the keys that is a linear extension of add_col_ordering + the
+   existing order (fa_prec) in which the ORIGINAL columns keep their relative order *)
+Theorem C10_schema_add : forall T ops T1 nd cm,
+  wf_tbl T = true -> NoDup (akeys (tb_cols T)) -> forallb in_class_a ops = true ->
+  edit_app_all ops T = BOk T1 -> batch sa_tsort T ops = BOk (nd, cm) ->
+  exists s sorted, apply_ops ops (init T) = BOk s /\ InvA s T1 /\ FinA s T1 nd cm sorted /\
+    filter (fun k => mem_name k (b_existing s)) sorted = b_existing s.
+Proof. exact schema_add. Qed.
+Print Assumptions C10_schema_add.
 
 (* no temporary table: when the statement sequence of _create runs without an exception and the transaction is committed,
    the table is under its original name with the new definition and the copied rows, and the temporary name is free *)
@@ -117,11 +165,21 @@ Theorem C10_added_column_order_refuted : exists i,
 Proof. exact added_order_refuted. Qed.
 Print Assumptions C10_added_column_order_refuted.
 
+(* a self-referential foreign key must still refer to the same COLUMNS of the table after a rename (describe_s: its referred
+   columns follow renames like its source columns — what SQLite's own RENAME COLUMN does); the batch recreate renames the
+   column and leaves REFERENCES t (id): registered deviation C10-selfref-fk-target-not-renamed, delimited by selfref_ok *)
+Theorem C10_selfref_fk_target_refuted :
+  selfref_ok (j_tbl w_in_self) (j_ops w_in_self) = false /\
+  (exists nd r, model10 w_in_self = OutOk nd r false /\ In (mkCon w_uqa (KFk self_table [w_id]) [w_a]) (n_cons nd)) /\
+  check_C10 w_in_self (model10 w_in_self) = false /\ ~ C10_holds w_in_self (model10 w_in_self).
+Proof. exact selfref_refuted. Qed.
+Print Assumptions C10_selfref_fk_target_refuted.
+
 (* ------------------------------------------------------------------ non-vacuity *)
 (* a sequence of the class touching every kind of element, accepted by the specification and by the model *)
 Definition nv_ops : list batch_op :=
   [OAlterColumn w_a (mkAlter (Some w_a2) (Some 2%N) (Some false) (Some (Some [48%N]))); ODropConstraint w_uqc; ODropColumn w_c;
-   OAddConstraint (mkCon w_uqa KUnique [w_a]); OCreateIndex (mkIndex [105;120;95;97]%N [w_a; w_id] true); ODropIndex w_ixb].
+   OAddConstraint (mkCon w_uqa KUnique [w_a]); OCreateIndex (mkIndex [105;120;95;97]%N [w_a; w_id] true None); ODropIndex w_ixb].
 Example C10_schema_nonvacuous :
   wf_tbl w_tbl = true /\ forallb in_class nv_ops = true /\
   (exists T', edit_all nv_ops w_tbl = BOk T') /\ (exists nd cm, batch sa_tsort w_tbl nv_ops = BOk (nd, cm) /\ cm <> []).
@@ -174,7 +232,51 @@ Proof.
 Qed.
 
 (* the main theorem's class is inhabited by a sequence touching every kind of element, with rows and a type change *)
+Example C10_main_add_nonvacuous :
+  let ops := [ODropConstraint w_uqc; ODropColumn w_c; OAddColumn w_z (mkCol w_z 2 true (Some [55])) None None;
+              OAlterColumn w_z (mkAlter (Some [122; 122]) None (Some false) None); OAddConstraint (mkCon w_uqa KUnique [w_z]);
+              OAlterColumn w_a (mkAlter None (Some 2) None None); OAddColumn [121] (mkCol [121] 0 true None) None None] in
+  let i := mkIn10 w_tbl w_rows ops [(2, VInt 1, VText [49]); (2, VNull, VNull)] [([122; 122], VText [55])] true [] [] true [] false in
+  inclass_C10 i = true /\ (exists nd rows, model10 i = OutOk nd rows false /\ map c_name (n_cols nd) = [w_id; w_a; w_b; [122; 122]; [121]]) /\
+  check_C10 i (model10 i) = true.
+Proof. split; [vm_compute; reflexivity|]. split; [eexists; eexists; split; vm_compute; reflexivity|vm_compute; reflexivity]. Qed.
+
+(* ... and by insert_before / insert_after next to renames, drops and a second column for the same gap *)
+Example C10_main_placed_nonvacuous :
+  let ops := [OAddColumn w_z (mkCol w_z 2 true None) (Some w_b) None; OAlterColumn w_b (mkAlter (Some [113]) None None None);
+              OAddColumn [121] (mkCol [121] 0 true None) None (Some w_a); OAddColumn [120] (mkCol [120] 0 true None) None (Some w_a);
+              ODropConstraint w_uqc; ODropColumn w_c; OAddColumn [119] (mkCol [119] 0 true None) None None] in
+  let i := mkIn10 w_tbl w_rows ops [] [] true [] [] true [] false in
+  inclass_C10 i = true /\ inclass_C10_plain i = false /\
+  (exists nd rows, model10 i = OutOk nd rows false /\ map c_name (n_cols nd) = [w_id; w_a; w_z; [121]; [120]; [113]; [119]]) /\
+  check_C10 i (model10 i) = true.
+Proof. split; [vm_compute; reflexivity|]. split; [vm_compute; reflexivity|]. split; [eexists; eexists; split; vm_compute; reflexivity|vm_compute; reflexivity]. Qed.
+
+(* a partial UNIQUE index (CREATE UNIQUE INDEX ... WHERE ...) the batch does not mention is kept WITH its predicate: inside the
+   class, and the decider rejects the same output with the predicate gone *)
+Example C10_partial_index_kept_nonvacuous :
+  let ux := mkIndex [117;120] [w_a] true (Some (7%N, [w_c])) in
+  let T := mkTbl (tb_cols w_tbl) (tb_pk w_tbl) [] [ux] in
+  let i := mkIn10 T w_rows [OAlterColumn w_b (mkAlter (Some [113]) None None None)] [] [] true [] [] true [] false in
+  inclass_C10 i = true /\
+  (exists nd rows, model10 i = OutOk nd rows false /\ n_idx nd = [ux] /\
+     check_C10 i (OutOk (mkDesc (n_cols nd) (n_pk nd) (n_cons nd) [mkIndex [117;120] [w_a] true None]) rows false) = false) /\
+  check_C10 i (model10 i) = true /\
+  model10 (mkIn10 T w_rows [ODropColumn w_c] [] [] true [] [] true [] false) = OutErr EOperationalB.
+Proof. split; [vm_compute; reflexivity|]. split; [eexists; eexists; split; [vm_compute; reflexivity|split; vm_compute; reflexivity]|]. split; vm_compute; reflexivity. Qed.
+
 Example C10_main_nonvacuous :
-  let i := mkIn10 w_tbl w_rows nv_ops [(2, VInt 1, VText [49]); (2, VNull, VNull)] [] true in
+  let i := mkIn10 w_tbl w_rows nv_ops [(2, VInt 1, VText [49]); (2, VNull, VNull)] [] true [] [] true [] false in
   inclass_C10 i = true /\ (exists nd rows, model10 i = OutOk nd rows false /\ length rows = 2%nat) /\ check_C10 i (model10 i) = true.
 Proof. split; [vm_compute; reflexivity|]. split; [eexists; eexists; split; vm_compute; reflexivity|vm_compute; reflexivity]. Qed.
+
+Example C10_schema_add_nonvacuous :
+  let ops := [ODropColumn w_c; OAddColumn w_z (mkCol w_z 0 true None) None (Some w_a); OAlterColumn w_z (mkAlter None (Some 2) None None);
+              OAddColumn [121] (mkCol [121] 0 true None) (Some w_z) None] in
+  let T := mkTbl (tb_cols w_tbl) [w_id] [] [] in
+  wf_tbl T = true /\ forallb in_class_a ops = true /\ (exists T1, edit_app_all ops T = BOk T1) /\
+  (exists nd cm, batch sa_tsort T ops = BOk (nd, cm) /\ map c_name (n_cols nd) = [w_id; w_a; [121]; w_z; w_b]).
+Proof.
+  split; [vm_compute; reflexivity|]. split; [vm_compute; reflexivity|]. split; [eexists; vm_compute; reflexivity|].
+  eexists; eexists. split; vm_compute; reflexivity.
+Qed.
